@@ -59,6 +59,12 @@ ResetAPI(m, with) ==
             ELSE m.resetLike = <<>>
 C08(c) == \A i \in DOMAIN c.obs.mocks : ResetAPI(c.obs.mocks[i], c.cfg.withResets)
 
+(* ---------------------------------------------------------------- C06 ---- *)
+(* static part (behaviour is the schedule exploration's): every method of a  *)
+(* mock has a pointer receiver - one on the value would lock a copy of the   *)
+(* mock's mutexes, taken while the original may be held                      *)
+C06(c) == c.obs.valueReceivers = <<>>
+
 (* ---------------------------------------------------------------- C09 ---- *)
 GenericKept(m) ==
     m.generic =>
@@ -121,7 +127,8 @@ MethodNamesOK(o, me) ==
     /\ Distinct(me.recFields)
     /\ Len(me.recFields) = Len(me.params)
     /\ me.fieldParams = me.params
-C12(c) == \A i \in DOMAIN c.obs.mocks : \A j \in DOMAIN c.obs.mocks[i].methods : MethodNamesOK(c.obs, c.obs.mocks[i].methods[j])
+C12(c) == /\ c.obs.parseOK     \* a file that does not parse has an identifier (or more) that is not one
+          /\ \A i \in DOMAIN c.obs.mocks : \A j \in DOMAIN c.obs.mocks[i].methods : MethodNamesOK(c.obs, c.obs.mocks[i].methods[j])
 
 (* ---------------------------------------------------------------- C13 ---- *)
 (* c.names: for every method of the input, per parameter: declared name     *)
@@ -200,6 +207,7 @@ Verdict(c) ==
        Check("C02", ("C02" \in Range(c.judge)) => C02(c)) \cup
        Check("C08", ("C08" \in Range(c.judge)) => C08(c)) \cup
        Check("C09", ("C09" \in Range(c.judge)) => C09(c)) \cup
+       Check("C06", ("C06" \in Range(c.judge)) => C06(c)) \cup
        Check("C10", ("C10" \in Range(c.judge)) => C10(c)) \cup
        Check("C11", ("C11" \in Range(c.judge)) => C11(c)) \cup
        Check("C12", ("C12" \in Range(c.judge)) => C12(c)) \cup
